@@ -584,4 +584,110 @@ theorem fromPoints_separated (pts : List (Coord × Coord)) (ny nx pad : Int) (hn
         have := h q hq; linarith
       linarith
 
+
+/-! ### structure of `compute_reproject_roi` (same-CRS branch) -/
+
+def normAlign (align : Option Int) : Option Int := if align = some 0 then none else align
+def padOr1 (padding : Option Int) : Int := match padding with | none => 1 | some p => p
+
+theorem reprojectLinear_cases {src dst : Shape} {fwd A : Aff} {n ttol stol : Rat} {padding align : Option Int} {p : Plan}
+    (h : reprojectLinear src dst fwd A n ttol stol padding align = .ok p) :
+    pickReadScale (min (scale2 A n).1 (scale2 A n).2) = .ok p.readShrink ∧
+    p.scale = min (scale2 A n).1 (scale2 A n).2 ∧ p.scale2 = scale2 A n ∧
+    ((p.pasteOk = false ∧
+        (p.roiSrc, p.roiDst) = relativeRois src dst (linTr A) (linTr fwd) 2 (padOr1 padding) (normAlign align)) ∨
+     (p.pasteOk = true ∧ canPaste A n stol ttol = .ok true ∧ normAlign align = none ∧
+        (padding = none ∨ padding = some 0) ∧
+        ((p.readShrink = 1 ∧ boxOverlap src dst (snapAffine A ttol stol) = .ok (p.roiSrc, p.roiDst)) ∨
+         (p.readShrink ≠ 1 ∧ ∃ r' : ROI,
+            boxOverlap (zoomOutDim src.1 p.readShrink, zoomOutDim src.2 p.readShrink) dst
+              (snapAffine (Aff.scale (1 / (p.readShrink : Rat)) (1 / (p.readShrink : Rat)) * A) ttol stol)
+              = .ok (r', p.roiDst) ∧ p.roiSrc = scaledUpROI r' p.readShrink)))) := by
+  unfold reprojectLinear at h
+  dsimp only at h
+  cases hrs : pickReadScale (min (scale2 A n).1 (scale2 A n).2) with
+  | error e => simp [hrs] at h
+  | ok rs =>
+    simp only [hrs] at h
+    by_cases ht : ((if align = some 0 then none else align) = none) ∧ (padding = none ∨ padding = some 0)
+    · simp only [ht, and_self, if_true] at h
+      cases hcp : canPaste A n stol ttol with
+      | error e => simp [hcp] at h
+      | ok b =>
+        cases b with
+        | false =>
+          simp only [hcp, Except.ok.injEq] at h
+          subst h
+          refine ⟨rfl, rfl, rfl, Or.inl ⟨rfl, ?_⟩⟩
+          simp only [padOr1, normAlign, ht.1, Prod.mk.eta]
+          cases padding <;> rfl
+        | true =>
+          simp only [hcp] at h
+          by_cases h1 : rs = 1
+          · rw [if_pos h1] at h
+            cases hb : boxOverlap src dst (snapAffine A ttol stol) with
+            | error e => simp [hb] at h
+            | ok r =>
+              obtain ⟨r1, r2⟩ := r
+              simp only [hb, Except.ok.injEq] at h
+              subst h
+              subst h1
+              exact ⟨rfl, rfl, rfl, Or.inr ⟨rfl, rfl, ht.1, ht.2, Or.inl ⟨rfl, rfl⟩⟩⟩
+          · rw [if_neg h1] at h
+            split at h
+            · simp at h
+            · rename_i r1 r2 hb
+              simp only [Except.ok.injEq] at h
+              subst h
+              exact ⟨rfl, rfl, rfl, Or.inr ⟨rfl, rfl, ht.1, ht.2, Or.inr ⟨h1, r1, hb, rfl⟩⟩⟩
+    · simp only [ht, if_false, Except.ok.injEq] at h
+      subst h
+      refine ⟨rfl, rfl, rfl, Or.inl ⟨rfl, ?_⟩⟩
+      simp only [padOr1, normAlign, Prod.mk.eta]
+      cases padding <;> rfl
+
+
+/-! ### numeric helpers on non-negative input -/
+
+theorem floor_intCast' (k : Int) : ((k : Rat)).floor = k := by
+  apply le_antisymm
+  · have := Rat.floor_le (k : Rat); exact_mod_cast this
+  · rw [Rat.le_floor_iff]
+
+theorem trunc_nonneg (x : Rat) (h : 0 ≤ x) : trunc x = x.floor := by simp [trunc, h]
+
+/-- `split_float` of a non-negative number: `(⌊x⌋, frac)` or `(⌊x⌋+1, frac-1)` when `frac > ½` -/
+theorem splitFloat_nonneg (x : Rat) (h : 0 ≤ x) :
+    splitFloat x = if x - x.floor > 1 / 2 then ((x.floor : Rat) + 1, x - x.floor - 1) else ((x.floor : Rat), x - x.floor) := by
+  have f1 := Rat.floor_le x
+  simp only [splitFloat, fmod1, trunc_nonneg x h]
+  split_ifs with c1 c2
+  · simp
+  · exfalso; linarith
+  · simp
+
+/-- `zoom_out` size: a multiple of `rs` covering the image, less than `rs` beyond it -/
+theorem zoomOutDim_spec (n rs : Int) (hn : 1 ≤ n) (hrs : 1 ≤ rs) :
+    n ≤ zoomOutDim n rs * rs ∧ zoomOutDim n rs * rs < n + rs := by
+  have hrq : (0 : Rat) < rs := by exact_mod_cast (by omega : (0 : Int) < rs)
+  have hnq : (0 : Rat) < n := by exact_mod_cast (by omega : (0 : Int) < n)
+  have c1 := @Rat.le_ceil ((n : Rat) / rs)
+  have c2 : (((n : Rat) / rs).ceil : Rat) < (n : Rat) / rs + 1 := Rat.ceil_lt
+  have hpos : 1 ≤ ((n : Rat) / rs).ceil := by
+    have : (0 : Rat) < (n : Rat) / rs := div_pos hnq hrq
+    have : (0 : Rat) < (((n : Rat) / rs).ceil : Rat) := by linarith
+    have : 0 < ((n : Rat) / rs).ceil := by exact_mod_cast this
+    omega
+  have e : zoomOutDim n rs = ((n : Rat) / rs).ceil := by simp only [zoomOutDim]; omega
+  rw [e]
+  constructor
+  · have : (n : Rat) ≤ (((n : Rat) / rs).ceil : Rat) * rs := by
+      rw [div_le_iff₀ hrq] at c1; exact c1
+    exact_mod_cast this
+  · have : (((n : Rat) / rs).ceil : Rat) * rs < (n : Rat) + rs := by
+      have : (((n : Rat) / rs).ceil : Rat) * rs < ((n : Rat) / rs + 1) * rs := by nlinarith
+      have e2 : ((n : Rat) / rs + 1) * rs = n + rs := by field_simp
+      linarith
+    exact_mod_cast this
+
 end OdcGeo.C03
